@@ -24,3 +24,25 @@ func Point(point string, owner interface{}) {
 		(*f)(point, owner)
 	}
 }
+
+// autoYield, when set by a simulation harness, is called at fine-grained yield points. The
+// repository itself contains no call to Yield: the harness inserts them into a scratch copy
+// of the sources at build time (statement granularity), so that the interleaving of the
+// goroutines of one process between blocking points becomes a seeded choice.
+var autoYield atomic.Pointer[func()]
+
+// SetAutoYield installs (or, with nil, removes) the fine-grained yield function.
+func SetAutoYield(f func()) {
+	if f == nil {
+		autoYield.Store(nil)
+		return
+	}
+	autoYield.Store(&f)
+}
+
+// Yield is a fine-grained yield point.
+func Yield() {
+	if f := autoYield.Load(); f != nil {
+		(*f)()
+	}
+}
